@@ -8,11 +8,14 @@ FAIL CLOSED: any construct outside the subset below raises Unsupported; that fun
 lemma and every caller stop compiling) and main() exits non-zero after writing the file (gen_rc != 0 = broken tie).
 The Gallina helpers (py_*, pd_*, ps_*, re_range, pyinfo, msg_view) are hand-written in coq/Model/MessagesPy.v.
 
-SHAPE.  A function becomes one Definition; statements become nested `let v_<name> := e in` (total) / `do t <- e;` (an operation
-that can raise: the outcome monad, Crash = the exception).  A block is translated as a pure expression when it contains no
-operation that can raise, otherwise in the monad (ends `Ok (..)`).  `out` is the list of tags emitted so far.
-  x = e; x op= e; a.f = e (a = types.SimpleNamespace(): one variable per field); d[k] = e; d[k][k2] = e; d[k] += e; d[k][k2] += e
-        -> rebinding of x / d (pd_set; the old inner value is read with the default of a Counter / defaultdict)
+SHAPE.  A function becomes one Definition; a statement becomes `let v_<name> := e in` (total) or `do t <- e;` (an operation that
+can raise: the outcome monad, Crash = the exception; tags emitted before an exception are lost, as in the model).  A block is a
+pure expression when it contains no operation that can raise, otherwise it is in the monad (and ends `Ok (..)`).  `out` is the list
+of tags emitted so far.  Values have no identity: an in-place update of a list / set / dict that was given a second name
+(x = y, x = d[k], [x] = d.values()) is rejected.
+  x = e;  x op= e (+= on counts and lists, |= on sets);  a.f = e (a = types.SimpleNamespace(): one variable per field);
+  d[k] = e; d[k][k2] = e; d[k] += e; d[k][k2] += e -> rebinding of x / d (pd_set; inner values are read with the default of a
+        Counter / defaultdict; python's order: container and keys of an augmented target before the value, otherwise value first)
   i, j = map(int, m.groups())   -> do i <- py_int maxd (fst m); do j <- py_int maxd (snd m)   (m matched by the 2-group range regex)
   [a, b] = heapq.nsmallest(2, S) -> do (a, b) <- py_two_smallest cmp S;      [x] = L -> do x <- py_single L
   self.tag(NAME, args..)  -> out ++ [CTOR data..] (table TAGS); message_repr(..) / the variable bound to it are decoration and dropped;
@@ -22,26 +25,31 @@ operation that can raise, otherwise in the monad (ends `Ok (..)`).  `out` is the
   checker.check_message(ctx, message, flags) -> out ++ [MDispatch <key the checker was looked up with>]
   if c: A else: B  where a branch ENDS in continue / break / return (only at the top level of a loop / function body, not inside a
         merged branch): `if c then A else B`, the statements after the `if` go into the branch that does not jump;
-     otherwise a MERGE: `let '(vars) := if c then A;(vars) else B;(vars) in`, vars = the variables assigned in A or B that are read
+     otherwise a MERGE: `let '(vars) := if c then A;(vars) else B;(vars) in`, vars = the variables assigned in A or B that may be read
         later.  A variable bound on one side only becomes an `option` (Some = bound); reading it is `do x <- py_bound v` (Crash
         CUnboundLocal, proved dead).  The types of the two sides are joined: None | T -> option T, 1e999 | int -> option Z (None = inf).
-  if x is None / if x is not None, x a variable of optional type -> `match x with Some x => .. | None => ..` (x narrowed in each branch)
+  if x is None / if x is not None, x a variable or message.<field> of optional type -> `match x with Some x => .. | None => ..`
+        (x has the narrowed type in each branch); on a value that is None on every path only the live branch is translated
   for T in L: body -> py_fold / py_forb (break) / py_for (can raise) L (state) (fun st x => ..): state = the variables assigned in the
-        body that were bound before the loop; other variables assigned in the body are local to ONE iteration (a read of a stale
-        value from an earlier iteration is therefore a read of an unbound variable: Crash CUnboundLocal, which no model outcome is).
+        body that were bound before the loop and may be read in a later iteration or after the loop; other variables assigned in the
+        body are local to ONE iteration and unknown after the loop (a read of a stale value from an earlier iteration is therefore
+        a read of an unbound variable: rejected, or Crash CUnboundLocal, which no outcome of the model is).
         L must be ordered (a list, sorted(..), a literal); `for message in ctx.file` iterates py_enumerate cat (position, (entry, view)).
         continue / break as above; loop `else` is not supported.
   try: v = self._message_format_checkers[k]  except KeyError: continue  -> `if ps_mem str_eqb k src_format_checkers then .. else <continue>`
   try: xml.check_fragment(s)  except xml.SyntaxError as exc: H   -> `match c_xml cfg s with Some exc => H | None => .. end` (the expat oracle)
   return e / return / end of body -> Ok (out, e) / Ok out;  is_header_entry is a pure boolean function.
-EXPRESSIONS (typed; an operation that can raise is hoisted in evaluation order in front of its statement, and is rejected inside
+EXPRESSIONS (typed; an operation that can raise is hoisted, in evaluation order, in front of its statement, and is rejected inside
   the later operands of and / or and inside generator expressions):
   constants; names; == != < > <= >= on numbers, strings (code point order), bools, optional values; `in` a set literal / dict;
   not / and / or; bool(x), truth of str / list / set = non-empty; x or '' for an optional string;
-  s.startswith(c) s.endswith(c) s.strip(c) s.rstrip(c) s[k:] s[len(p):-m] len(..);  [..] lists, 2-tuples, {..} set literals, l += l
-  set() set(l) frozenset(d) | - & sorted(S) -> ps_*;  Counter() Counter(l) defaultdict(dict) defaultdict(Counter) d[k] (dict: pd_item,
-  KeyError; Counter: 0 default; defaultdict: default, and then len / keys / values of THAT defaultdict are rejected because the
-  insertion is not represented) sorted(d.items()) d.keys() d.values() (a bag: only sum / any / all / [x] =) len(d) -> pd_*;
+  s.startswith(c) s.endswith(c) s.strip(c) s.rstrip(c) s[k:] s[len(p):-m] len(..);  [..] lists, 2-tuples, {..} set literals
+  set() set(l) frozenset(d) | - & sorted(S) len(S) -> ps_* (a list stands for the set of its elements);
+  Counter() Counter(l) defaultdict(dict) defaultdict(Counter) -> association lists, newest binding first (pd_*):
+     d[k]: dict -> pd_item (KeyError); Counter -> 0 when missing; defaultdict (a local variable) -> the default, and because the
+     insertion of the default is not represented, len / keys / values / items / `in` of THAT defaultdict are rejected on every path
+     that continues from such a read (until the variable is rebound);
+     sorted(d.items()) (by key: keys are distinct) d.keys() (a set) d.values() (a bag: only sum / any / all / [x] =) len(d)
   any(l) all(l) any(<cond> for x in l); min(S) -> py_min (ValueError); sum(bag)
   EXTERNAL, kept as in the model: find_unusual_characters(s) -> find_unusual (c_isword cfg) s; gettext.search_for_conflict_marker(s) ->
   search_marker s (.group(0) = the line found); re.match(<the range regex>, s) -> re_range s; re.match(<the XML trigger regex>, c) ->
@@ -74,13 +82,13 @@ def bad(node, why):
 
 class V:
     """a translated value: Gallina text + type"""
-    def __init__(self, text, ty, aux=None):
-        self.text, self.ty, self.aux = text, ty, aux
+    def __init__(self, text, ty, aux=None, name=None):
+        self.text, self.ty, self.aux, self.name = text, ty, aux, name      # name: the python variable it was read from
 
 
 # ---------------------------------------------------------------------------------------------------------------- types
-# atoms: Bool Nat Z Int(literal) Str Char NoneT InfT Unbound Deco Info Msg Ctx File Enc Match2 Checker Registry Namespace PluralDict Formats
-# ('Opt',T) ('OrInf',T) ('Unb',T) ('List',T) ('Set',T) ('Bag',T) ('Tup',A,B) ('Map',kind,K,V) kind = dict counter ddict ddict!
+# atoms: Bool Nat Z Int(literal) Str Char NoneT InfT Unbound Deco Info Msg Ctx File Enc Match0 Match2 Checker Registry Namespace PluralDict CommentOrNone CharNames
+# ('Opt',T) ('OrInf',T) ('Unb',T) ('List',T) ('Set',T) ('Bag',T) ('Tup',A,B) ('Map',kind,K,V) kind = dict counter ddict
 # None inside a compound type = not yet known
 UNIT = {'NoneT': 'Opt', 'InfT': 'OrInf', 'Unbound': 'Unb'}
 
@@ -99,11 +107,8 @@ def join(a, b):
         if isinstance(x, tuple) and x[0] in UNIT.values() and not (isinstance(y, tuple) and y[0] == x[0]) and y not in UNIT:
             return (x[0], join(x[1], y))
     if isinstance(a, tuple) and isinstance(b, tuple) and a[0] == b[0] and len(a) == len(b):
-        if a[0] == 'Map':
-            kinds = {a[1], b[1]}
-            if len(kinds) > 1 and kinds != {'ddict', 'ddict!'}:
-                raise Unsupported('cannot join dict kinds %s' % sorted(kinds))
-            return ('Map', 'ddict!' if 'ddict!' in kinds else a[1], join(a[2], b[2]), join(a[3], b[3]))
+        if a[0] == 'Map' and a[1] != b[1]:
+            raise Unsupported('cannot join dict kinds %s and %s' % (a[1], b[1]))
         return (a[0],) + tuple(join(x, y) for x, y in zip(a[1:], b[1:]))
     raise Unsupported('cannot join types %s and %s' % (a, b))
 
@@ -121,7 +126,7 @@ def coerce(v, ty):
             return 'None'
         return '(Some %s)' % coerce(v, ty[1])
     if join(v.ty, ty) == ty and isinstance(v.ty, tuple) and v.ty[0] == ty[0] and v.ty[0] in ('List', 'Set', 'Bag', 'Map', 'Opt', 'OrInf', 'Unb'):
-        return v.text                      # only unknown parts / the taint mark differ
+        return v.text                      # only unknown parts differ
     raise Unsupported('cannot use a value of type %s as %s' % (v.ty, ty))
 
 
@@ -289,7 +294,7 @@ class Tail:
 
 class Tr:
     def __init__(self, fname, checkers):
-        self.fname, self.checkers, self.n, self.mon = fname, checkers, 0, []
+        self.fname, self.checkers, self.n, self.mon, self.shared = fname, checkers, 0, [], set()
 
     def fresh(self):
         self.n += 1
@@ -351,7 +356,7 @@ class Tr:
                 bad(n, 'name without a value here (unknown, or local to another iteration / branch)')
             if isinstance(v.ty, tuple) and v.ty[0] == 'Unb':
                 return self.hoist(pre, n, 'py_bound %s' % v.text, v.ty[1])
-            return v
+            return V(v.text, v.ty, v.aux, n.id)
         if isinstance(n, ast.Attribute):
             if isinstance(env.get(ast.unparse(n)), V) and isinstance(n.value, ast.Name):     # narrowed by an enclosing `is [not] None` test
                 return env[ast.unparse(n)]
@@ -432,20 +437,22 @@ class Tr:
         _, kind, kt, vt = o.ty
         kt = join(kt, k.ty)
         if kind == 'dict':
-            return self.hoist(pre, n, 'pd_item %s %s %s' % (eqb(kt), coerce(k, kt), o.text), vt)
+            v = self.hoist(pre, n, 'pd_item %s %s %s' % (eqb(kt), coerce(k, kt), o.text), vt)
+            return V(v.text, v.ty, name=o.name)
         if kind == 'counter':
             return V('(pd_getd %s %s 0%%nat %s)' % (eqb(kt), coerce(k, kt), o.text), 'Nat')
         if not (isinstance(vt, tuple) and vt[0] == 'Map'):
             bad(n, 'defaultdict of ' + str(vt))
-        if isinstance(n.value, ast.Name):     # the insertion of the default is not represented: forget how to observe it
-            env[n.value.id] = V(o.text, ('Map', 'ddict!', kt, vt))
-        return V('(pd_getd %s %s [] %s)' % (eqb(kt), coerce(k, kt), o.text), vt)
+        if o.name is None:
+            bad(n, 'read of a defaultdict that is not a local variable')
+        env['$taint'] = env['$taint'] | {o.name}      # the insertion of the default is not represented: its key set is unknown from here on
+        return V('(pd_getd %s %s [] %s)' % (eqb(kt), coerce(k, kt), o.text), vt, name=o.name)
 
-    def whole(self, v, node):
+    def whole(self, v, node, env):
         """operations that see the key set of a dict"""
         if not (isinstance(v.ty, tuple) and v.ty[0] == 'Map'):
             bad(node, 'expected a dict, got ' + str(v.ty))
-        if v.ty[1] == 'ddict!':
+        if v.ty[1] == 'ddict' and (v.name is None or v.name in env['$taint']):
             bad(node, 'key set of a defaultdict after a read that may have inserted a default')
         return v.ty[2], v.ty[3]
 
@@ -480,7 +487,7 @@ class Tr:
                 if isinstance(b.ty, tuple) and b.ty[0] == 'Set':
                     t = '(ps_mem %s %s %s)' % (eqb(join(a.ty, b.ty[1])), a.text, b.text)
                 elif isinstance(b.ty, tuple) and b.ty[0] == 'Map':
-                    kt, _ = self.whole(b, n)
+                    kt, _ = self.whole(b, n, env)
                     t = '(ps_mem %s %s (pd_keys %s))' % (eqb(join(a.ty, kt)), a.text, b.text)
                 else:
                     bad(n, '`in` ' + str(b.ty))
@@ -580,17 +587,17 @@ class Tr:
                     bad(n, 'this function does not receive the msg_view')
                 return V('(mv_values %s)' % env['message'].aux, ('List', 'Str'))
             if m in ('keys', 'values') and na == 0:
-                kt, vt = self.whole(o, n)
+                kt, vt = self.whole(o, n, env)
                 if m == 'keys':
                     return V('(pd_keys %s)' % o.text, ('Set', kt))
-                return V('(pd_values %s %s %s)' % (cmp_(kt), eqb(kt), o.text), ('Bag', vt))
+                return V('(pd_values %s %s %s)' % (cmp_(kt), eqb(kt), o.text), ('Bag', vt), name=o.name)
             bad(n, 'method call')
         if na != 1:
             bad(n, 'call')
         a = n.args[0]
         if f == 'sorted' and isinstance(a, ast.Call) and isinstance(a.func, ast.Attribute) and a.func.attr == 'items' and not a.args and not a.keywords:
             d = self.ev(a.func.value, env, pre)
-            kt, vt = self.whole(d, n)
+            kt, vt = self.whole(d, n, env)
             return V('(pd_items %s %s %s)' % (cmp_(kt), eqb(kt), d.text), ('List', ('Tup', kt, vt)))
         if f == 'tags.safestr':
             return self.ev(a, env, pre)
@@ -600,7 +607,7 @@ class Tr:
             return V(self.truth(x, n), 'Bool')
         if f == 'len':
             if col == 'Map':
-                return V('(pd_len %s %s)' % (eqb(self.whole(x, n)[0]), x.text), 'Nat')
+                return V('(pd_len %s %s)' % (eqb(self.whole(x, n, env)[0]), x.text), 'Nat')
             if col == 'Set':
                 return V('(ps_len %s %s)' % (eqb(x.ty[1]), x.text), 'Nat')
             if col == 'List' or x.ty == 'Str':
@@ -609,7 +616,7 @@ class Tr:
             if col in ('List', 'Set'):
                 return V(x.text, ('Set', x.ty[1]))
             if col == 'Map':
-                return V('(pd_keys %s)' % x.text, ('Set', self.whole(x, n)[0]))
+                return V('(pd_keys %s)' % x.text, ('Set', self.whole(x, n, env)[0]))
         if f == 'sorted' and col == 'Set':
             return V('(ps_sorted %s %s)' % (cmp_(x.ty[1]), x.text), ('List', x.ty[1]))
         if f == 'min' and x.ty == ('Set', 'Str'):
@@ -636,10 +643,19 @@ class Tr:
         env['$out'] = V('out', old.ty)
         return 'let out := %s ++ %s in\n' % (old.text, text)
 
+    def rebound(self, env, name, keep_fields=False):
+        """name gets a new value: forget what was known about the old one"""
+        for x in [x for x in env if x.startswith(name + '.') and not keep_fields]:
+            del env[x]                        # `is None` facts about attributes of the old value
+        env['$taint'] = env['$taint'] - {name}
+
+    @staticmethod
+    def mutable(ty):
+        return isinstance(ty, tuple) and ty[0] in ('List', 'Set', 'Map', 'Bag')
+
     def bind(self, env, name, v):
         """name = v: a let, except for typeless constants, which are substituted"""
-        for x in [x for x in env if x.startswith(name + '.') and v.ty != 'Namespace']:
-            del env[x]                        # facts about attributes of the old value
+        self.rebound(env, name, v.ty == 'Namespace')
         if v.ty in ('Int', 'NoneT', 'InfT', 'Namespace', 'Deco') or v.text in ('[]', 'true', 'false'):
             env[name] = v
             return ''
@@ -657,7 +673,11 @@ class Tr:
                                                and isinstance(env.get(base.value.id), V) and env[base.value.id].ty == 'Namespace')):
             bad(t, 'assignment target')
         name = target_names(base)[0]
+        if (keys or aug) and name in self.shared:
+            bad(t, 'in-place update of an object that is reachable under another name (values are translated without identity)')
         v = None if aug else value()
+        if not aug and not keys and v.name is not None and self.mutable(v.ty):
+            self.shared |= {name, v.name}      # x = y / x = d[k]: two names for one mutable object
         cur = env.get(name)
         if isinstance(cur, V) and isinstance(cur.ty, tuple) and cur.ty[0] == 'Unb':
             cur = None
@@ -710,6 +730,7 @@ class Tr:
                 text = ''
                 for e, proj in zip(t.elts, ('fst', 'snd')):
                     text += 'do %s <- py_int (c_maxd cfg) (%s %s);\n' % (gname(e.id), proj, m.text)
+                    self.rebound(env, e.id)
                     env[e.id] = V(gname(e.id), 'Z')
                 return self.binds(pre) + text + k(env)
             if isinstance(t, ast.List) and all(isinstance(e, ast.Name) for e in t.elts) and len({e.id for e in t.elts}) == len(t.elts) in (1, 2):
@@ -728,7 +749,10 @@ class Tr:
                 else:
                     bad(s, 'unpacking')
                 self.monadic()
+                if self.mutable(ty):
+                    self.shared |= set(names) | {L.name}
                 for x in names:
+                    self.rebound(env, x)
                     env[x] = V(gname(x), ty)
                 return self.binds(pre) + 'do %s <- %s;\n' % (tup([gname(x) for x in names]), text) + k(env)
             if isinstance(t, ast.Name) and isinstance(s.value, ast.Call) and ast.unparse(s.value.func) in CALLEES:
@@ -761,8 +785,9 @@ class Tr:
                     and isinstance(b.targets[0], ast.Name) and isinstance(b.value, ast.Subscript):
                 reg, key = self.ev(b.value.value, env, pre), self.ev(b.value.slice, env, pre)
                 if reg.ty == 'Registry' and key.ty == 'Str':
-                    ea = dict(env, **{b.targets[0].id: V(key.text, 'Checker')})
-                    render = lambda x, y: 'if ps_mem str_eqb %s %s then\n%s\nelse\n%s' % (key.text, reg.text, x, y)
+                    g = gname(b.targets[0].id)
+                    ea = dict(env, **{b.targets[0].id: V(g, 'Checker')})        # the checker is represented by the key it is registered under
+                    render = lambda x, y: 'if ps_mem str_eqb %s %s then\nlet %s := %s in\n%s\nelse\n%s' % (key.text, reg.text, g, key.text, x, y)
                     return self.binds(pre) + self.branch(render, [], ea, h.body, dict(env), env, rest, tail, live)
             if ast.unparse(h.type) == 'xml.SyntaxError' and h.name and isinstance(b, ast.Expr) and isinstance(b.value, ast.Call) \
                     and ast.unparse(b.value.func) == 'xml.check_fragment' and len(b.value.args) == 1 and not b.value.keywords:
@@ -872,6 +897,7 @@ class Tr:
         text, mon = self.region(gen)
         for x, ty in zip(names, tys):
             env[x] = V(gname(x), ty, (env0.get(x) or V(None, None)).aux)
+        env['$taint'] = (ends[0]['$taint'] | ends[1]['$taint']) - {x for x in assigned(body_a) + assigned(body_b) if x not in names}
         if mon:
             self.monadic()
         if not names:
@@ -899,9 +925,9 @@ class Tr:
                  and (is_live(v, inner) or is_live(v, live))]
         if not state:
             bad(s, 'loop without effect')
-        tys = [env[v].ty for v in state]
-        benv = lambda: dict(env, **dict({v: V(gname(v), ty, env[v].aux) for v, ty in zip(state, tys)}, **tb))
-        for _ in range(5):      # the types of the loop-carried variables: least fixed point of join
+        tys, taint = [env[v].ty for v in state], env['$taint']
+        benv = lambda: dict(env, **dict({v: V(gname(v), ty, env[v].aux) for v, ty in zip(state, tys)}, **dict(tb, **{'$taint': taint})))
+        for _ in range(6):      # types of the loop-carried variables (and defaultdicts read): least fixed point over the iterations
             ends = []
             rec = lambda e: ends.append(e) or '?'
             self.mon.append(True)
@@ -909,12 +935,13 @@ class Tr:
                 self.block(s.body, benv(), Tail(rec, set(state), {'continue': rec, 'break': rec}))
             finally:
                 self.mon.pop()
-            new = list(tys)
+            new, ntaint = list(tys), taint
             for e in ends:
                 new = [join(t, e[v].ty if isinstance(e.get(v), V) else 'Unbound') for t, v in zip(new, state)]
-            if new == tys:
+                ntaint = ntaint | e['$taint']
+            if (new, ntaint) == (tys, taint):
                 break
-            tys = new
+            tys, taint = new, ntaint
         else:
             bad(s, 'types of the loop-carried variables do not stabilise')
         brk = has_break(s.body)
@@ -934,6 +961,7 @@ class Tr:
             env.pop(v, None)
         for v, ty in zip(state, tys):
             env[v] = V(gname(v), ty)
+        env['$taint'] = taint - {v for v in assigned(s.body) + targets if v not in state}
         if mon:
             self.monadic()
         p = pat([gname(v) for v in state])
@@ -946,13 +974,16 @@ def translate(fn, name, checkers):
     if ast.unparse(fn.args) != params or fn.decorator_list:
         bad(fn, 'signature of ' + name)
     tr = Tr(name, checkers)
+    names = assigned(fn.body) + [a.arg for a in fn.args.args]
+    if len({gname(x) for x in names}) != len(set(names)):
+        bad(fn, 'two python names with the same Gallina name')
     if name == 'is_header_entry':
         tr.mon.append(False)
         tail = Tail(lambda e: bad(fn, 'is_header_entry without return'), set(), {'return': lambda e, v: tr.cond(v, e, None)})
-        body = tr.block(fn.body, {'entry': V('e', 'Msg')}, tail)
+        body = tr.block(fn.body, {'entry': V('e', 'Msg'), '$taint': frozenset()}, tail)
     else:
         top = name == 'check_messages'
-        env = {'ctx': V(None, 'Ctx'), '$out': V('[]', ('List', 'cdiag' if top else 'mdiag'))}
+        env = {'ctx': V(None, 'Ctx'), '$out': V('[]', ('List', 'cdiag' if top else 'mdiag')), '$taint': frozenset()}
         if not top:
             env['message'] = V('e', 'Msg')
         if 'flags' in params:
